@@ -1,11 +1,698 @@
 package gvc
 
-// SpecFile: parsed //@ contract file of one package (filled in below).
-type SpecFile struct {
-	Path string
-	Pkg  string
-	src  string
+import (
+	"bytes"
+	"fmt"
+	"go/ast"
+	"go/parser"
+	"go/printer"
+	"go/token"
+	"os"
+	"path/filepath"
+	"regexp"
+	"strings"
+
+	"golang.org/x/tools/go/ssa"
+)
+
+// Clause is one requires/ensures clause compiled to a boolean Go function.
+type Clause struct {
+	Kind  string // requires | ensures
+	Text  string // source text as written (with ==>)
+	Func  string // generated Go function name
+	Props []string
+	Line  int
 }
 
-func ParseSpecFile(path string) (*SpecFile, error) { return &SpecFile{Path: path}, nil }
-func (s *SpecFile) GoSource() string                { return s.src }
+// Contract of one function or method.
+type Contract struct {
+	Key      string // "Name" or "T.Name" (receiver type name without *)
+	Header   string
+	Requires []*Clause
+	Ensures  []*Clause
+	Modifies string // "" = unspecified, "nothing"
+	Pure     bool
+	Line     int
+	NParams  int // receiver + params
+	NResults int
+	Trusted  bool // contract is assumed, not verified against the body (listed)
+}
+
+type Lemma struct {
+	Name  string
+	Func  string
+	Props []string
+	Line  int
+}
+
+// SpecFile is the parsed //@ file of one package.
+type SpecFile struct {
+	Path      string
+	PkgName   string
+	Imports   []string
+	Contracts map[string]*Contract
+	Order     []string
+	Lemmas    []*Lemma
+	Loops     map[string]*LoopSpec // "Func#ordinal"
+	Inline    map[string]bool
+	SpecFuncs []string
+	body      bytes.Buffer
+	NAssume   int
+	gen       []string
+	NTrusted  int
+	NBounded  int
+}
+
+var tagRe = regexp.MustCompile(`^((?:@C\d+\s+)*)`)
+
+func ParseSpecFile(path string) (*SpecFile, error) {
+	raw, err := os.ReadFile(path)
+	if err != nil {
+		return nil, err
+	}
+	sf := &SpecFile{Path: path, Contracts: map[string]*Contract{}, Loops: map[string]*LoopSpec{}, Inline: map[string]bool{}}
+	lines := strings.Split(string(raw), "\n")
+	var cur *Contract
+	var curLoop *LoopSpec
+	inBlock := false // inside spec func / lemma body
+	for ln := 0; ln < len(lines); ln++ {
+		line := strings.TrimSpace(lines[ln])
+		if strings.HasPrefix(line, "package ") && sf.PkgName == "" {
+			sf.PkgName = strings.TrimSpace(strings.TrimPrefix(line, "package "))
+			continue
+		}
+		if !strings.HasPrefix(line, "//@") {
+			continue
+		}
+		txt := strings.TrimPrefix(line, "//@")
+		if strings.HasPrefix(txt, " ") {
+			txt = txt[1:]
+		}
+		trim := strings.TrimSpace(txt)
+		if inBlock {
+			if strings.Contains(trim, "assume(") {
+				sf.NAssume++
+			}
+			sf.body.WriteString(rewriteLine(txt))
+			sf.body.WriteByte('\n')
+			if trim == "}" && !strings.HasPrefix(txt, " ") && !strings.HasPrefix(txt, "\t") {
+				inBlock = false
+			}
+			continue
+		}
+		fields := strings.Fields(trim)
+		if len(fields) == 0 {
+			continue
+		}
+		switch fields[0] {
+		case "import":
+			sf.Imports = append(sf.Imports, strings.TrimSpace(strings.TrimPrefix(trim, "import")))
+		case "inline":
+			for _, f := range fields[1:] {
+				sf.Inline[f] = true
+			}
+		case "contract", "trusted":
+			hdr := strings.TrimSpace(strings.TrimPrefix(trim, fields[0]))
+			c, err := sf.newContract(hdr, ln+1)
+			if err != nil {
+				return nil, fmt.Errorf("%s:%d: %v", path, ln+1, err)
+			}
+			if fields[0] == "trusted" {
+				c.Trusted = true
+				sf.NTrusted++
+			}
+			cur = c
+			curLoop = nil
+		case "requires", "ensures":
+			if cur == nil {
+				return nil, fmt.Errorf("%s:%d: clause outside contract", path, ln+1)
+			}
+			rest := strings.TrimSpace(strings.TrimPrefix(trim, fields[0]))
+			// continuation lines: following //@ lines that start with more indentation and no keyword
+			for ln+1 < len(lines) {
+				nx := strings.TrimSpace(lines[ln+1])
+				if !strings.HasPrefix(nx, "//@") {
+					break
+				}
+				nt := strings.TrimSpace(strings.TrimPrefix(nx, "//@"))
+				nf := strings.Fields(nt)
+				if len(nf) == 0 || isKeyword(nf[0]) {
+					break
+				}
+				rest += " " + nt
+				ln++
+			}
+			var props []string
+			m := tagRe.FindString(rest)
+			for _, t := range strings.Fields(m) {
+				props = append(props, strings.TrimPrefix(t, "@"))
+			}
+			rest = strings.TrimSpace(rest[len(m):])
+			cl := &Clause{Kind: fields[0], Text: rest, Props: props, Line: ln + 1}
+			if fields[0] == "requires" {
+				cl.Func = fmt.Sprintf("gvcC_%s_req%d", sanitizeKey(cur.Key), len(cur.Requires))
+				cur.Requires = append(cur.Requires, cl)
+			} else {
+				cl.Func = fmt.Sprintf("gvcC_%s_ens%d", sanitizeKey(cur.Key), len(cur.Ensures))
+				cur.Ensures = append(cur.Ensures, cl)
+			}
+			sf.emitClause(cur, cl)
+		case "modifies":
+			if cur != nil {
+				cur.Modifies = strings.TrimSpace(strings.TrimPrefix(trim, "modifies"))
+			}
+		case "pure":
+			if cur != nil {
+				cur.Pure = true
+			}
+		case "loop":
+			// loop <Func> <ordinal>: unroll N | bounded N | invariant <expr>
+			//   (Func may be omitted inside a contract block)
+			rest := strings.TrimSpace(strings.TrimPrefix(trim, "loop"))
+			parts := strings.SplitN(rest, ":", 2)
+			if len(parts) != 2 {
+				return nil, fmt.Errorf("%s:%d: bad loop clause", path, ln+1)
+			}
+			hf := strings.Fields(parts[0])
+			var fname string
+			var ord int
+			switch len(hf) {
+			case 1:
+				if cur == nil {
+					return nil, fmt.Errorf("%s:%d: loop without function", path, ln+1)
+				}
+				fname = cur.Key
+				fmt.Sscanf(hf[0], "%d", &ord)
+			case 2:
+				fname = hf[0]
+				fmt.Sscanf(hf[1], "%d", &ord)
+			default:
+				return nil, fmt.Errorf("%s:%d: bad loop clause", path, ln+1)
+			}
+			body := strings.Fields(strings.TrimSpace(parts[1]))
+			curLoop = &LoopSpec{}
+			if len(body) >= 2 && (body[0] == "unroll" || body[0] == "bounded") {
+				curLoop.Mode = body[0]
+				fmt.Sscanf(body[1], "%d", &curLoop.N)
+				if body[0] == "bounded" {
+					sf.NBounded++
+				}
+			} else if len(body) >= 1 && body[0] == "invariant" {
+				curLoop.Mode = "invariant"
+				curLoop.Inv = append(curLoop.Inv, strings.TrimSpace(strings.TrimPrefix(strings.TrimSpace(parts[1]), "invariant")))
+			}
+			sf.Loops[fmt.Sprintf("%s#%d", fname, ord)] = curLoop
+		case "spec":
+			// spec func name(...) T { ... }
+			code := strings.TrimSpace(strings.TrimPrefix(trim, "spec"))
+			sf.body.WriteString(rewriteLine(code))
+			sf.body.WriteByte('\n')
+			if nm := funcNameOf(code); nm != "" {
+				sf.SpecFuncs = append(sf.SpecFuncs, nm)
+			}
+			if !balanced(code) {
+				inBlock = true
+			}
+			cur = nil
+		case "lemma":
+			code := strings.TrimSpace(strings.TrimPrefix(trim, "lemma"))
+			nm := funcNameOf("func " + code)
+			lm := &Lemma{Name: nm, Func: "gvcL_" + nm, Line: ln + 1}
+			if m := regexp.MustCompile(`^(C\d+)_`).FindStringSubmatch(nm); m != nil {
+				lm.Props = []string{m[1]}
+			}
+			sf.Lemmas = append(sf.Lemmas, lm)
+			sf.body.WriteString("func gvcL_" + rewriteLine(code))
+			sf.body.WriteByte('\n')
+			if !balanced(code) {
+				inBlock = true
+			}
+			cur = nil
+		default:
+			return nil, fmt.Errorf("%s:%d: unknown directive %q", path, ln+1, fields[0])
+		}
+	}
+	return sf, nil
+}
+
+func isKeyword(s string) bool {
+	switch s {
+	case "import", "inline", "contract", "trusted", "requires", "ensures", "modifies", "pure", "loop", "spec", "lemma":
+		return true
+	}
+	return false
+}
+
+func sanitizeKey(k string) string {
+	return strings.NewReplacer(".", "_", "*", "", "(", "", ")", "").Replace(k)
+}
+
+func balanced(s string) bool {
+	d := 0
+	seen := false
+	for _, r := range s {
+		switch r {
+		case '{':
+			d++
+			seen = true
+		case '}':
+			d--
+		}
+	}
+	return seen && d == 0
+}
+
+func funcNameOf(code string) string {
+	m := regexp.MustCompile(`^func\s+([A-Za-z_][A-Za-z0-9_]*)`).FindStringSubmatch(code)
+	if m == nil {
+		return ""
+	}
+	return m[1]
+}
+
+// newContract parses "Name(params) (results)" or "(r T) Name(params) (results)".
+func (sf *SpecFile) newContract(hdr string, line int) (*Contract, error) {
+	src := "package p\nfunc " + hdr + " {}"
+	fset := token.NewFileSet()
+	f, err := parser.ParseFile(fset, "", src, 0)
+	if err != nil {
+		return nil, fmt.Errorf("bad contract header %q: %v", hdr, err)
+	}
+	fd := f.Decls[0].(*ast.FuncDecl)
+	key := fd.Name.Name
+	if fd.Recv != nil && len(fd.Recv.List) == 1 {
+		t := fd.Recv.List[0].Type
+		if s, ok := t.(*ast.StarExpr); ok {
+			t = s.X
+		}
+		key = exprString(t) + "." + key
+	}
+	c := &Contract{Key: key, Header: hdr, Line: line}
+	count := func(fl *ast.FieldList) int {
+		n := 0
+		if fl == nil {
+			return 0
+		}
+		for _, f := range fl.List {
+			if len(f.Names) == 0 {
+				n++
+			} else {
+				n += len(f.Names)
+			}
+		}
+		return n
+	}
+	c.NParams = count(fd.Recv) + count(fd.Type.Params)
+	c.NResults = count(fd.Type.Results)
+	if _, dup := sf.Contracts[key]; dup {
+		return nil, fmt.Errorf("duplicate contract for %s", key)
+	}
+	sf.Contracts[key] = c
+	sf.Order = append(sf.Order, key)
+	return c, nil
+}
+
+func exprString(e ast.Expr) string {
+	var b bytes.Buffer
+	printer.Fprint(&b, token.NewFileSet(), e)
+	return b.String()
+}
+
+// paramList renders receiver+params(+results) of a contract header as one
+// Go parameter list.
+func paramList(hdr string, withResults bool) (string, error) {
+	src := "package p\nfunc " + hdr + " {}"
+	fset := token.NewFileSet()
+	f, err := parser.ParseFile(fset, "", src, 0)
+	if err != nil {
+		return "", err
+	}
+	fd := f.Decls[0].(*ast.FuncDecl)
+	var parts []string
+	n := 0
+	add := func(fl *ast.FieldList, prefix string) {
+		if fl == nil {
+			return
+		}
+		for _, fld := range fl.List {
+			t := exprString(fld.Type)
+			if strings.HasPrefix(t, "...") {
+				t = "[]" + t[3:]
+			}
+			if len(fld.Names) == 0 {
+				n++
+				parts = append(parts, fmt.Sprintf("%s%d %s", prefix, n, t))
+				continue
+			}
+			for _, nm := range fld.Names {
+				name := nm.Name
+				if name == "_" {
+					n++
+					name = fmt.Sprintf("%s%d", prefix, n)
+				}
+				parts = append(parts, name+" "+t)
+			}
+		}
+	}
+	add(fd.Recv, "recv")
+	add(fd.Type.Params, "p")
+	if withResults {
+		add(fd.Type.Results, "res")
+	}
+	return strings.Join(parts, ", "), nil
+}
+
+func (sf *SpecFile) emitClause(c *Contract, cl *Clause) {
+	pl, err := paramList(c.Header, cl.Kind == "ensures")
+	if err != nil {
+		pl = "/* " + err.Error() + " */"
+	}
+	fmt.Fprintf(&sf.body, "func %s(%s) bool { return %s }\n", cl.Func, pl, rewriteImplies(cl.Text))
+}
+
+// rewriteLine rewrites ==> inside a line of Go code from a spec/lemma body.
+func rewriteLine(s string) string {
+	if !strings.Contains(s, "==>") {
+		return s
+	}
+	t := strings.TrimLeft(s, " \t")
+	ind := s[:len(s)-len(t)]
+	if strings.HasPrefix(t, "return ") {
+		return ind + "return " + rewriteImplies(strings.TrimPrefix(t, "return "))
+	}
+	return ind + rewriteImplies(t)
+}
+
+// rewriteImplies turns  A ==> B  (lowest precedence, right associative) into
+// (!(A) || (B)) inside every parenthesised group and at top level.
+func rewriteImplies(s string) string {
+	if !strings.Contains(s, "==>") {
+		return s
+	}
+	// first rewrite inside parenthesised / bracketed / braced groups
+	var out strings.Builder
+	i := 0
+	for i < len(s) {
+		ch := s[i]
+		if ch == '(' || ch == '[' || ch == '{' {
+			j := matchClose(s, i)
+			if j < 0 {
+				out.WriteString(s[i:])
+				i = len(s)
+				break
+			}
+			out.WriteByte(ch)
+			out.WriteString(rewriteImplies(s[i+1 : j]))
+			out.WriteByte(s[j])
+			i = j + 1
+			continue
+		}
+		if ch == '"' || ch == '`' || ch == '\'' {
+			j := i + 1
+			for j < len(s) && s[j] != ch {
+				if s[j] == '\\' && ch != '`' {
+					j++
+				}
+				j++
+			}
+			if j >= len(s) {
+				j = len(s) - 1
+			}
+			out.WriteString(s[i : j+1])
+			i = j + 1
+			continue
+		}
+		out.WriteByte(ch)
+		i++
+	}
+	s = out.String()
+	// now split at top-level ==> (none remain inside groups); also split on
+	// top-level commas / semicolons so that call arguments are handled
+	return splitTop(s)
+}
+
+func splitTop(s string) string {
+	// split on top-level ',' or ';' first
+	depth := 0
+	for i := 0; i < len(s); i++ {
+		switch s[i] {
+		case '(', '[', '{':
+			depth++
+		case ')', ']', '}':
+			depth--
+		case '"', '`', '\'':
+			q := s[i]
+			i++
+			for i < len(s) && s[i] != q {
+				if s[i] == '\\' && q != '`' {
+					i++
+				}
+				i++
+			}
+		case ',', ';':
+			if depth == 0 {
+				return splitTop(s[:i]) + string(s[i]) + splitTop(s[i+1:])
+			}
+		}
+	}
+	depth = 0
+	for i := 0; i+2 < len(s); i++ {
+		switch s[i] {
+		case '(', '[', '{':
+			depth++
+		case ')', ']', '}':
+			depth--
+		case '"', '`', '\'':
+			q := s[i]
+			i++
+			for i < len(s) && s[i] != q {
+				if s[i] == '\\' && q != '`' {
+					i++
+				}
+				i++
+			}
+		case '=':
+			if depth == 0 && s[i:i+3] == "==>" {
+				return "(!(" + strings.TrimSpace(s[:i]) + ") || (" + splitTop(strings.TrimSpace(s[i+3:])) + "))"
+			}
+		}
+	}
+	return s
+}
+
+func matchClose(s string, i int) int {
+	open := s[i]
+	var cl byte
+	switch open {
+	case '(':
+		cl = ')'
+	case '[':
+		cl = ']'
+	default:
+		cl = '}'
+	}
+	d := 0
+	for j := i; j < len(s); j++ {
+		switch s[j] {
+		case open:
+			d++
+		case cl:
+			d--
+			if d == 0 {
+				return j
+			}
+		case '"', '`', '\'':
+			q := s[j]
+			j++
+			for j < len(s) && s[j] != q {
+				if s[j] == '\\' && q != '`' {
+					j++
+				}
+				j++
+			}
+		}
+	}
+	return -1
+}
+
+// GoSource renders the synthetic Go file injected into the package.
+func (sf *SpecFile) GoSource() string {
+	var b strings.Builder
+	fmt.Fprintf(&b, "// Code generated by gvc from %s; DO NOT EDIT.\n\npackage %s\n\n", filepath.Base(sf.Path), sf.PkgName)
+	for _, im := range sf.Imports {
+		fmt.Fprintf(&b, "import %s\n", im)
+	}
+	b.WriteString(prelude)
+	b.WriteString("\n")
+	b.Write(sf.body.Bytes())
+	return b.String()
+}
+
+// shortFuncName: "Name" or "T.Name" for contract lookup.
+func shortFuncName(fn *ssa.Function) string {
+	if fn.Signature.Recv() != nil {
+		t := fn.Signature.Recv().Type()
+		s := typeString(t)
+		s = strings.TrimPrefix(s, "*")
+		if i := strings.LastIndex(s, "."); i >= 0 {
+			s = s[i+1:]
+		}
+		return s + "." + fn.Name()
+	}
+	return fn.Name()
+}
+
+// ContractOf finds the contract attached to fn (nil if none).
+func (p *Program) ContractOf(fn *ssa.Function) *Contract {
+	if fn == nil || fn.Pkg == nil {
+		return nil
+	}
+	sf := p.Specs[fn.Pkg.Pkg.Path()]
+	if sf == nil {
+		return nil
+	}
+	return sf.Contracts[shortFuncName(fn)]
+}
+
+// prelude: ghost vocabulary with executable bodies (used verbatim by replays).
+const prelude = `
+type gvcAssumeFailed struct{}
+
+func assert(b bool) {
+	if !b {
+		panic("gvc: assertion failed")
+	}
+}
+
+func assume(b bool) {
+	if !b {
+		panic(gvcAssumeFailed{})
+	}
+}
+
+func implies(a, b bool) bool { return !a || b }
+
+func seqeq(a, b []byte) bool {
+	if len(a) != len(b) {
+		return false
+	}
+	for i := range a {
+		if a[i] != b[i] {
+			return false
+		}
+	}
+	return true
+}
+
+func cat(xs ...[]byte) []byte {
+	var r []byte
+	for _, x := range xs {
+		r = append(r, x...)
+	}
+	return r
+}
+
+// sub is total: out-of-range bounds are clamped.
+func sub(a []byte, lo, hi int) []byte {
+	if lo < 0 {
+		lo = 0
+	}
+	if hi > len(a) {
+		hi = len(a)
+	}
+	if lo > hi {
+		return nil
+	}
+	return a[lo:hi]
+}
+
+// val: big-endian value of up to 8 bytes (mathematical, as uint64).
+func val(b []byte) uint64 {
+	var v uint64
+	for _, x := range b {
+		v = v<<8 | uint64(x)
+	}
+	return v
+}
+
+func u16(b []byte) int {
+	if len(b) < 2 {
+		return 0
+	}
+	return int(b[0])<<8 | int(b[1])
+}
+
+func u32(b []byte) int {
+	if len(b) < 4 {
+		return 0
+	}
+	return int(b[0])<<24 | int(b[1])<<16 | int(b[2])<<8 | int(b[3])
+}
+
+func forall(lo, hi int, f func(i int) bool) bool {
+	for i := lo; i < hi; i++ {
+		if !f(i) {
+			return false
+		}
+	}
+	return true
+}
+
+func exists(lo, hi int, f func(i int) bool) bool {
+	for i := lo; i < hi; i++ {
+		if f(i) {
+			return true
+		}
+	}
+	return false
+}
+
+// suffix: rem is data[k:] (an empty or nil rem is the empty suffix).
+func suffix(rem, data []byte, k int) bool {
+	if k < 0 || k > len(data) || len(rem) != len(data)-k {
+		return false
+	}
+	return len(rem) == 0 || &rem[0] == &data[k]
+}
+
+// within: r is nil/empty or a sub-slice of data's backing block.
+func within(r, data []byte) bool {
+	if cap(r) == 0 {
+		return true
+	}
+	if cap(data) == 0 {
+		return false
+	}
+	full := data[:cap(data)]
+	r0 := &r[:1][0]
+	for i := range full {
+		if &full[i] == r0 {
+			return true
+		}
+	}
+	return false
+}
+
+// fresh: b does not point into memory that existed before the call (cannot
+// be observed by executable code; replays treat it as true).
+func fresh(b []byte) bool { return true }
+
+// same: identical slice header.
+func same(a, b []byte) bool {
+	if len(a) != len(b) || cap(a) != cap(b) || (a == nil) != (b == nil) {
+		return false
+	}
+	return cap(a) == 0 || &a[:1][0] == &b[:1][0]
+}
+
+func isnil(b []byte) bool { return b == nil }
+`
+
+func (sf *SpecFile) genLines() []string {
+	if sf.gen == nil {
+		sf.gen = strings.Split(sf.GoSource(), "\n")
+	}
+	return sf.gen
+}
+
+func trimSpaceStr(s string) string { return strings.Join(strings.Fields(s), " ") }
